@@ -65,7 +65,14 @@ def run(chk, tier):
     # ---- R2 -------------------------------------------------------------------------------------------
     chk.rule('R2', 'complete_probe reached iff recv Ok(Some) ∧ validate ∧ check_trace_id ∧ in_round', floor=8)
     st = St()
-    outs = eng0.run(frr, [eng0.sym_ref(st, 'self'), eng0.sym_ref(st, 'network'), eng0.sym_ref(st, 'st')], st)
+    # a private bool helper of Strategy that only reads (an extracted `is_expected(st, resp)`) is part of the gate expression: inlined; the named gate
+    # predicates themselves stay opaque
+    def _gate_helper(c):
+        f_ = prog.fns.get(c)
+        return bool(f_) and re.search(r'::strategy::Strategy::<', c) is not None and not re.search(r'::(validate|check_trace_id|recv_response)$', c) and \
+            f_['locals'][0]['ty'] == 'bool' and not any(l_['ty'].startswith('&mut') for l_ in f_['locals'][1:f_.get('argc', 0) + 1])
+    eng2 = Engine(prog, inline_depth=1, inline_filter=_gate_helper)
+    outs = eng2.run(frr, [eng2.sym_ref(st, 'self'), eng2.sym_ref(st, 'network'), eng2.sym_ref(st, 'st')], st)
     RECV = r'call:Network::recv_probe\(network\)'
     RESP = r'field:0\(field:0\(%s\)\)' % RECV
     SR = r'call:StrategyResponse::from\(\(%s, self\.config\)\)' % RESP
@@ -146,7 +153,9 @@ def run(chk, tier):
         fresh = False
         for e in w:
             v = e[3]
-            if not contains(v, lambda x: isinstance(x, tuple) and x[0] in ('sym', 'rec') and 'buffer' in str(x[1])):
+            if vshow(v) == 'filled(ProbeStatus::NotSent)':
+                fresh = True        # `for slot in &mut self.buffer { *slot = ProbeStatus::default() }` (engine summary of a fill loop)
+            elif not contains(v, lambda x: isinstance(x, tuple) and x[0] in ('sym', 'rec') and 'buffer' in str(x[1])):
                 # value must be built from default (NotSent) entries
                 cl = [x for x in _subterms(v) if isinstance(x, tuple) and x[0] == 'closure']
                 if cl and cl[0][1] in prog.fns:
